@@ -44,6 +44,13 @@ class _Sub(_Base):
         self.x = 1
 
 
+class _BadDump(object):
+    """An object whose conversion to JSON fails inside jsonclass.dump."""
+
+    def _serialize(self):
+        raise ValueError("cannot be serialised")
+
+
 def _base_handler(obj, serialize_method, ignore_attribute, ignore, config):
     return {"handled": type(obj).__name__}
 
@@ -159,10 +166,14 @@ class SysRun(object):
                     raise MethodError("boom %s" % name)
                 if kind == "const":
                     return spec.get("ret")
+                if kind == "shared":
+                    return run.shared_object(spec.get("ret"))
                 if kind == "exit":
                     raise SystemExit(3)
                 if kind == "sub":
                     return _Sub()
+                if kind == "baddump":
+                    return _BadDump()
                 if kind == "fault":
                     from jsonrpclib import Fault
 
@@ -180,6 +191,14 @@ class SysRun(object):
             two.__name__ = method.__name__
             return two
         return method
+
+    def shared_object(self, value):
+        """One object per run for all 'shared' callables (identity matters, not only equality)."""
+        if getattr(self, "_shared", None) is None:
+            import copy
+
+            self._shared = copy.deepcopy(value)
+        return self._shared
 
     def direct_dispatch(self, method, params):
         """A user-written dispatch function: own table, lets exceptions through."""
@@ -278,10 +297,6 @@ class SysRun(object):
                 self.url = "unix+http://./" + "/sim/sock"
             else:
                 self.url = "http://sim:%d/" % self.server.server_address[1]
-        if is_real_server(self.server):
-            run = self
-            # same behaviour, but the traceback of a dying connection is not printed
-            self.server.handle_error = lambda request, client_address: run.s.probe("server_handle_error")
         if sv.get("npool") == "shared" and self.user_pool is not None:
             # one pool for requests and notifications
             self.npool = None
@@ -558,6 +573,9 @@ class SysRun(object):
             if self.shared_pool:
                 # notifications still queued in the shared pool would be discarded by server_close(): let them run first
                 s.emit("shared.joined", bool(self.user_pool.join(FAR)))
+            if is_net and p.get("second_server") and life == "serve":
+                # another server of the same class in the same process, closed without ever serving, while this one serves
+                self.second_server()
             if is_net:
                 if life == "serve":
                     self.lifecycle_op("shutdown", srv.shutdown)
@@ -580,6 +598,17 @@ class SysRun(object):
                snapshot_config(cfgmod.DEFAULT) == self.default_before)
         # reference replies: the same request texts on a fresh dispatcher, one at a time
         self.reference()
+
+    def second_server(self):
+        import socket
+
+        js = self.js
+        sv = self.p["server"]
+        cls = js.SimpleJSONRPCServer if sv["kind"] == "plain" else js.PooledJSONRPCServer
+        other = cls(("sim", 0), logRequests=False, address_family=socket.AF_INET, config=self.config())
+        self.s.probe("second_server_closed_while_first_serves")
+        self.lifecycle_op("server_close", other.server_close)
+        self.s.emit("second.fileno", other.socket.fileno())
 
     def npool_drain(self):
         s = self.s
